@@ -125,8 +125,19 @@ impl Relation for ZkirRelation {
             })
         };
 
+        // Constants do not go through `Load`, but Jubjub constants are assigned by the Jubjub chip.
+        let involves_jubjub_constants = self.program.instructions.iter().any(|instr| {
+            instr.inputs.iter().any(|name| {
+                matches!(
+                    IrValue::try_from(name.as_str()),
+                    Ok(IrValue::JubjubPoint(_)) | Ok(IrValue::JubjubScalar(_))
+                )
+            })
+        });
+
         ZkStdLibArch {
-            jubjub: involves_types(&[IrType::JubjubPoint, IrType::JubjubScalar]),
+            jubjub: involves_types(&[IrType::JubjubPoint, IrType::JubjubScalar])
+                || involves_jubjub_constants,
             poseidon: operations.iter().any(|op| matches!(op, Poseidon)),
             sha2_256: operations.iter().any(|op| matches!(op, Sha256)),
             sha2_512: operations.iter().any(|op| matches!(op, Sha512)),
